@@ -27,12 +27,13 @@ def getLoop (amount : Number) (name : String) : List (String × Property) → Ou
   | [] => .err .generic
   | (_, p) :: rest =>
     if name == p.outputName then
-      match Number.div p.input amount with
-      | .ok input => if input.dimless then Number.div p.output input else .err .conformance
+      -- output · (amount / input): the amount may be zero, the sides of a property never are
+      match Number.div amount p.input with
+      | .ok ratio => if ratio.dimless then .ok (Number.mul p.output ratio) else .err .conformance
       | r => r
     else if name == p.inputName then
-      match Number.div p.output amount with
-      | .ok output => if output.dimless then Number.div p.input output else .err .conformance
+      match Number.div amount p.output with
+      | .ok ratio => if ratio.dimless then .ok (Number.mul p.input ratio) else .err .conformance
       | r => r
     else getLoop amount name rest
 
